@@ -11,7 +11,10 @@ package main
 import (
 	"flag"
 	"fmt"
+	"go/token"
 	"os"
+
+	"golang.org/x/tools/go/ssa"
 	"sort"
 	"strconv"
 	"strings"
@@ -90,6 +93,28 @@ func main() {
 				fn.WriteTo(os.Stdout)
 			}
 		}
+		return
+	}
+	if os.Getenv("AVROCHECK_REGFOLD") != "" {
+		for _, pkg := range []*ssa.Package{P.Time, P.Null} {
+			rc := pkg.Func("RegisterCodecs")
+			outs, _, ok, why := cpFoldOpt(P, rc, nil, func(g *ssa.Function) bool { return g.Pkg == P.Avro && token.IsExported(g.Name()) })
+			fmt.Printf("%s: ok=%v why=%q outcomes=%d\n", pkg.Pkg.Name(), ok, why, len(outs))
+			for _, o := range outs {
+				for _, cl := range o.Calls {
+					fmt.Printf("   call %s args=%v\n", cl.Callee, cl.Args)
+				}
+			}
+		}
+		rs, ok := registrationsByFold(P)
+		fmt.Printf("registrationsByFold ok=%v n=%d\n", ok, len(rs))
+		return
+	}
+	if os.Getenv("AVROCHECK_ALFOLD") != "" {
+		r := allocByFold(P)
+		fmt.Printf("alloc fold ok=%v why=%q detail=%q problems=%v clearFn=%v\n", r.ok, r.why, r.detail, r.problems, r.clearFn)
+		probs, ok := closeByFold(P)
+		fmt.Printf("close fold ok=%v problems=%v\n", ok, probs)
 		return
 	}
 	if os.Getenv("AVROCHECK_CONTRACTS") != "" {
